@@ -86,6 +86,53 @@ def removed_axes(x, axis):
     return tuple(a for a in keep if a is not None), rem
 
 
+def _offset(av, text, base_text):
+    """av == <base_text> + c  ->  c ; else None"""
+    if text == base_text:
+        return 0
+    if av is not None and av.bin is not None:
+        o, l, r, lt, rt = av.bin
+        if o in ('+', '-') and lt == base_text and has_const(r) and isinstance(cval(r), int):
+            return cval(r) if o == '+' else -cval(r)
+        if o == '+' and rt == base_text and has_const(l) and isinstance(cval(l), int):
+            return cval(l)
+    return None
+
+
+def _len_offset(av):
+    """av == len(x) + c  ->  c ; else None"""
+    if av is None:
+        return None
+    if av.lenof is not None or av.shape_of is not None or av.sizeof is not None:
+        return 0
+    if av.bin is not None:
+        o, l, r, lt, rt = av.bin
+        if o in ('+', '-') and (l.lenof is not None or l.shape_of is not None or l.sizeof is not None) and has_const(r) and isinstance(cval(r), int):
+            return cval(r) if o == '+' else -cval(r)
+    return None
+
+
+def wrap_filter(cmp, base_text):
+    """Classify idx[(idx + a) OP (len + b)] against the exact removal of the last valid index len - 1:
+    'exact' keeps exactly t <= len - 2, 'strict' drops real indices too, 'loose' keeps len - 1, None unrecognised."""
+    o, l, r, lt, rt = cmp
+    if o in ('>', '>='):
+        o = {'>': '<', '>=': '<='}[o]
+        l, r, lt, rt = r, l, rt, lt
+    if o not in ('<', '<=', '!='):
+        return None
+    a = _offset(l, lt, base_text)
+    b = _len_offset(r)
+    if a is None or b is None:
+        return None
+    if o == '!=':
+        return 'exact' if b - a == -1 else None
+    upper = b - a + (1 if o == '<=' else 0)  # keeps t < len + upper
+    if upper == -1:
+        return 'exact'
+    return 'strict' if upper < -1 else 'loose'
+
+
 def sanitizer_of(mask, base_text):
     """True when `mask` is a boolean mask selecting the entries of `base_text` that are not the NOSITE marker."""
     if mask is None:
@@ -411,6 +458,10 @@ class NumpyModel:
         ga, gb = a.geo, b.geo
         if is_fractional(ga) or (ga is not None and ga[0] == 'SYMIMG'):
             if gb is not None and gb[0] == 'LATMAT':
+                if ga == ('FDIFF', 'CW'):
+                    interp.emit('cw_to_cart', node, arg=a)
+                if ga[0] == 'FDIFF' and ga[1] in ('W2', 'W1'):
+                    interp.emit('unreduced_diff', node, arg=a)
                 return ('CART', gb[1], 'pos' if ga[0] != 'FDIFF' else 'vec')
             if gb is not None and gb[0] == 'METRIC':
                 return ('COV', ga)
@@ -511,7 +562,9 @@ class NumpyModel:
         kind, diff = corr.imgcorr
         interp.emit('image_correction', node, how=kind, diff=diff, base=base)
         if is_frac(base.geo) or is_fdiff(base.geo):
-            return out.w(geo=('FRAC', 'N') if is_frac(base.geo) else ('FDIFF', 'MI'), imgcorr=None)
+            # rounding / single-step corrections reduce every component to [-0.5, 0.5] ("componentwise"): this is the minimum
+            # image only while the true vector is short compared with the cell (bonds, points inside a small radius)
+            return out.w(geo=('FRAC', 'N') if is_frac(base.geo) else ('FDIFF', 'CW'), imgcorr=None)
         return out.w(imgcorr=None)
 
     # ------------------------------------------------------------------ subscripts
@@ -593,7 +646,8 @@ class NumpyModel:
                     pos += len(it.axes) - 1
                     fancy = True
                 else:
-                    new_axes.append(axes[pos])
+                    # a boolean / fancy selection keeps the meaning of the axis but not the positions along it
+                    new_axes.append(axes[pos] if axes[pos].endswith('~') or it.idx == ('FRAME', 'roll') else axes[pos] + '~')
                     fancy = True
                 pos += 1
             if new_axes is not None:
@@ -642,6 +696,16 @@ class NumpyModel:
             hi = cval(sl.hi) if sl.hi is not None and has_const(sl.hi) else (0 if sl.hi is None else None)
             if lo is not None and hi is not None and lo >= 0 and hi <= 0 and sl.step is None:
                 out = out.w(symlen=('-', base.symlen, ('c', lo - hi)) if (lo - hi) else base.symlen)
+        # a mask on the index array itself that removes the wrap-around pseudo index: idx[idx + a < len(x) + b]
+        if base.rollwrap and len(items) == 1 and items[0].cmp is not None and items[0].dtype == 'bool':
+            verdict = wrap_filter(items[0].cmp, btext)
+            if verdict == 'exact':
+                out = out.w(rollwrap=None)
+                base = base.w(rollwrap=None)
+            elif verdict == 'strict':
+                interp.emit('wrap_filter_too_strict', node, mask=items[0])
+                out = out.w(rollwrap=None)
+                base = base.w(rollwrap=None)
         # dropping the last element of an index array whose last element is the wrap-around pseudo index
         rw = base.rollwrap
         if rw and len(items) == 1 and items[0].ty == 'slice':
